@@ -67,6 +67,14 @@ PROTO_LISTED = ["TCP"]
 PROTO_UNLISTED = "udp"
 ACL_LISTS = {"ip_list": IP_LISTED, "wildcard_list": WC_LISTED, "port_list": PORT_LISTED, "protocol_list": PROTO_LISTED}
 ACL_LISTS_EMPTY = {"ip_list": [], "wildcard_list": [], "port_list": [], "protocol_list": []}
+# a second set with the length order REVERSED (4, 1, 2, 3): sizing a field from another field's list only shows when the
+# field's own list is the longer one, so both orders are needed
+IP_LISTED_B = ["192.168.1.10", "192.168.1.11", "192.168.1.12", "192.168.1.13"]
+WC_LISTED_B = ["0.0.0.1"]
+PORT_LISTED_B = ["HTTP", "DNS"]
+PORT_LISTED_B_NUM = [80, 53]
+PROTO_LISTED_B = ["ICMP", "TCP", "UDP"]
+ACL_LISTS_B = {"ip_list": IP_LISTED_B, "wildcard_list": WC_LISTED_B, "port_list": PORT_LISTED_B, "protocol_list": PROTO_LISTED_B}
 
 
 def zoo_cfg(nmne: bool) -> Dict:
@@ -500,6 +508,11 @@ def ex_acl(E) -> Iterable[Dict]:
                 yield mk("acl", cfg, R0, [S(table + [pos], acl_rule(*combo))])
         yield mk("acl", cfg, R0, [S(table + [p], None) for p in range(24)], labels=["empty-table"])
         yield mk("acl", cfg, R0, [D(R0)], labels=["absent"])
+    cfg_b = dict(ACL_LISTS_B, num_rules=2)
+    for a, p, i, w, q in itertools.product(E["acl_action"], [None, "udp", "icmp"], [None, IP_LISTED_B[-1], IP_UNLISTED],
+                                           [None, WC_LISTED_B[-1], WC_UNLISTED], [None, PORT_LISTED_B_NUM[-1], PORT_UNLISTED_NUM]):
+        for pos in (0, 1):
+            yield mk("acl", cfg_b, R0, [S(table + [pos], acl_rule(a, p, i, w, q, i, w, q))], labels=["lists-b"])
 
 
 def host_cfg(users, acc, mon=None, nmne=True, hostname="h0", thresholds=None) -> Dict:
